@@ -17,6 +17,10 @@ def apply(ctx, W):
     fn_into_verus(ctx, fw, "Function::is_public", ret="r", tags=("C07", "C17"), ensures=["r == (self.visibility == Visibility::Public)"])
     rules.from_impl_into_verus(ctx, W.file("semantic/types.rs"), "grammar::Visibility", "Visibility", "crate::verif_specs::vis_of(v)", tags=("C17",))
 
+    # small helpers that new code in verified functions may call: under contract so that such code stays decidable
+    fn_into_verus(ctx, fw, "FunctionBody::is_field", ret="r", tags=("C07",), ensures=["r == (*self is Field)"])
+    fn_into_verus(ctx, fw, "Function::is_internal", mode="T", ret="r", tags=("C04", "C06", "C07"),
+                  ensures=["r == spec_name_is_internal(self.name@)"])
     # ---- function::build
     b = fw.fn("build")
     # the doc line builds an ItemPath through FromIterator/Into, only used in an error message: that one expression goes
@@ -31,6 +35,13 @@ def apply(ctx, W):
     fw.replace(a0 + m_doc.start(), a0 + m_doc.end(), "crate::verif_prelude::v_item_path_single(%s)" % m_doc.group(1), "W9-R-std-path-single")
     fn, u = fn_into_verus(ctx, fw, "build", ret="res", tags=U, unit="semantic::function::build", requires=["reg_wf(type_registry)"], ensures=[
         ("res is Ok ==> fn_built(type_registry, scope@, is_vfunc, *function, res->Ok_0)", ("C04", "C05", "C10", "C16", "C17"), "fn-built"),
+        ("res is Ok ==> forall|k: int| 1 <= k < function.arguments@.len() ==> !((#[trigger] function.arguments@[k]) is ConstSelf || function.arguments@[k] is MutSelf)", ("C05", "C16"), "receiver-first"),
+    ])
+    # the receiver-position check (F24): `for (index, argument) in function.arguments.iter().enumerate()`
+    l_rcv = rules.loop_by_header(fw, fn, "function.arguments.iter().enumerate()")
+    rules.for_to_index_loop(ctx, fw, u, l_rcv, seq="function.arguments", ivar="i_r")
+    rules.index_loop_spec(ctx, fw, u, l_rcv, tags=("C05", "C16"), invariants=[
+        ("forall|k: int| 1 <= k < i_r ==> !((#[trigger] function.arguments@[k]) is ConstSelf || function.arguments@[k] is MutSelf)", ("C05", "C16")),
     ])
     closure_annot(ctx, fw, u, closure_of_call(fw, fn, "then"), ret="b: FunctionBody",
                   ensures=["b == (FunctionBody::Vftable { function_name: function.name.0 })"], tags=("C04", "C05"))
